@@ -96,6 +96,28 @@ def run(tier, seed):
                                  'native': d['bad'][:3]}, bool(d['bad']))
     except R.Unsupported as e:
         chk.undecide('REG: %s' % e)
+    # 4b. position counters: region contract of the loop that ends _process_token (pyvc VCs, z3)
+    try:
+        from contracts import lexerpos
+        from pyvc.solve import solve_all
+        from pyvc.values import SymErr
+        obls, ax, pfn = lexerpos.position_obligations()
+        chk.functions.append({'function': pfn.qual + '[position counters]', 'file': 'pico8/lua/lexer.py', 'line': pfn.line, 'sha256': pfn.sha, 'ints': 'lia'})
+        solve_all(obls, ax)
+        for ob in obls:
+            chk.count(ob.backend or 'z3', ob.status, ob.secs, ob.name)
+            if ob.status == 'failed':
+                chk.violation(ob.name, {'function': pfn.qual, 'solver_model': str(ob.model)[:1500],
+                                        'solver': 'z3 counter-model of the position-counter obligation'}, False)
+            elif ob.status != 'discharged':
+                chk.undecide(ob.name)
+        import ast as _ast
+        txt = _ast.unparse(pfn.node)
+        ground.account(chk, [('SHAPE:lexer/a matcher-table token is created with the counters as they are BEFORE its text is consumed '
+                              '(tok_class(m.group(0), self._cur_lineno, self._cur_charno))',
+                              'token = tok_class(m.group(0), self._cur_lineno, self._cur_charno)' in txt, '')], 'SHAPE')
+    except SymErr as e:
+        chk.undecide('Lexer._process_token: %s' % e)
     # 5. BOUNDED native differential (kinds, extents, positions, decoded strings, numeric values, both chunkings)
     big = tier == 'thorough'
     d = lexnative.run(lexreg.symbols_of_impl(), seed, L=4 if big else 3, NL=5 if big else 4, R=40000 if big else 4000)
@@ -104,6 +126,7 @@ def run(tier, seed):
                            'as per-line chunks; compares kind, extent, line/column, decoded string bytes, numeric value'
                            % (4 if big else 3, 5 if big else 4, 40000 if big else 4000),
                    'evaluations': d['n'], 'agree': d['ok']}
+    chk.native_witness = d['bad']
     if d['bad']:
         chk.violation('BOUNDED:lexer/native differential against the reference tokenizer',
                       {'witness': [[bytes.fromhex(h).decode('latin1'), why] for h, why in d['bad'][:6]]}, True)
